@@ -42,7 +42,7 @@ Proof.
   intros He Hcl Hpl Hhead Hst Hne. cbn zeta. intro Hraw.
   set (content := file_content (plain_steps chunks)) in *.
   assert (Hlen : (0 < Z.of_nat (length content))%Z) by (destruct content; [congruence|cbn [length]; lia]).
-  destruct (fapp_wire cap lower c r status hs chunks hc He) with (2 := Hraw)
+  destruct (fapp_wire cap lower c r status hs chunks hc He Hst) with (2 := Hraw)
     as (t1 & tp & head & Esr & Eb & Ew & Ec & En & Eh & Ecl).
   { intros t1 Esr. destruct (nolen_start_facts lower r status hs t1 Esr Hcl) as (_ & _ & _ & _ & _ & _ & _ & _ & _ & L).
     unfold file_size. rewrite L. exact Hlen. }
@@ -103,7 +103,7 @@ Proof.
   set (hs := pre ++ (PStr clname, PStr v) :: post) in *.
   assert (Hsz : forall t1, t_clen t1 = Some cl -> file_size t1 content = cl).
   { intros t1 L. unfold file_size. rewrite L. clear - Hle. lia. }
-  destruct (fapp_wire cap lower c r status hs chunks hc He) with (2 := Hraw)
+  destruct (fapp_wire cap lower c r status hs chunks hc He Hst) with (2 := Hraw)
     as (t1 & tp & head & Esr & Eb & Ew & Ec & En & Eh & Ecl).
   { intros t1 Esr. fold content. rewrite (Hsz t1); [exact Hpos|].
     apply (start_response_cl lower _ clname v cl pre post status t1 Hpost Hn Hv Esr). }
